@@ -209,6 +209,26 @@ def _square_of(t, inner_pred):
     return False
 
 
+def obj_attr(prog, o, name, default=None, metrics=None):
+    """what reading `o.<name>` yields: the stored attribute, else the class's own __getattr__ (statistics computed on
+    first use ...) run on the object; `default` if neither gives a value"""
+    if not isinstance(o, Obj):
+        return default
+    if name in o.attrs:
+        return o.attrs[name]
+    ga = o.cls.lookup("__getattr__")
+    if ga is None:
+        return default
+    try:
+        pn = [p.name for p in ga.call_params]
+        out = ResultInterp(prog, ga, {pn[0]: name} if pn else {}, self_obj=o, **({"metrics": metrics} if metrics is not None else {})).run()
+    except Undecided:
+        return default
+    if out.kind != "return" or out.decisions:
+        return default
+    return out.value
+
+
 def reducer_verdict(kind: str, term, vals: tuple):
     """True: recognised correct reducer of the whole list; False: recognised wrong one;
     None: not recognised (undecided)."""
